@@ -50,21 +50,32 @@ Definition psig_eqb (x y : psig) : bool :=
   | _, _ => false
   end.
 
-(* the recording environment: what the harness's mock accounts do, as provenance terms *)
-Definition rec_one (a : account) (p : psig) : option psig := if a_fail a then None else Some p.
+(* the recording environment: what the harness's mock accounts do, as provenance terms.  The
+   transient failures scripted for the request (by account key): [bf] a multi-signature call has a
+   nil (or all-zero) entry for this member, [be] a multi-signature call made ON this account
+   fails as a whole, [sf] the single-signature methods of this account fail. *)
+Definition mem (k : N) (l : list N) : bool := existsb (N.eqb k) l.
 
-Definition rec_env : env psig := {|
-  e_sign := fun a data => rec_one a (PSign (a_key a) data);
-  e_generic := fun a root domain => rec_one a (PGeneric (a_key a) root domain);
-  e_att := fun a d domain => rec_one a (PAtt (a_key a) d domain);
-  e_prop := fun a h domain => rec_one a (PProp (a_key a) h domain);
+Definition rec_single (sf : list N) (a : account) (p : psig) : option psig :=
+  if a_fail a || mem (a_key a) sf then None else Some p.
+Definition rec_member (bf : list N) (a : account) (p : psig) : option psig :=
+  if a_fail a || mem (a_key a) bf then None else Some p.
+
+Definition rec_env_for (bf be sf : list N) : env psig := {|
+  e_sign := fun a data => rec_single sf a (PSign (a_key a) data);
+  e_generic := fun a root domain => rec_single sf a (PGeneric (a_key a) root domain);
+  e_att := fun a d domain => rec_single sf a (PAtt (a_key a) d domain);
+  e_prop := fun a h domain => rec_single sf a (PProp (a_key a) h domain);
   e_multi_generic := fun a0 accs roots domain =>
-    if negb (Nat.eqb (length accs) (length roots)) then None
-    else Some (map (fun '(a, root) => rec_one a (PMultiGeneric (a_key a0) (a_key a) root domain)) (combine accs roots));
+    if negb (Nat.eqb (length accs) (length roots)) || mem (a_key a0) be then None
+    else Some (map (fun '(a, root) => rec_member bf a (PMultiGeneric (a_key a0) (a_key a) root domain)) (combine accs roots));
   e_multi_att := fun a0 accs idxs shared domain =>
-    if negb (Nat.eqb (length accs) (length idxs)) then None
-    else Some (map (fun '(a, idx) => rec_one a (PMultiAtt (a_key a0) (a_key a) (att_with_index shared idx) domain)) (combine accs idxs))
+    if negb (Nat.eqb (length accs) (length idxs)) || mem (a_key a0) be then None
+    else Some (map (fun '(a, idx) => rec_member bf a (PMultiAtt (a_key a0) (a_key a) (att_with_index shared idx) domain)) (combine accs idxs))
 |}.
+
+(* no transient failure *)
+Definition rec_env : env psig := rec_env_for [] [] [].
 
 Inductive ores := OErr | OPanic | OOk (sigs : list psig).
 
@@ -73,6 +84,9 @@ Record case := {
   c_chain : chain;              (* the fork schedule etc. the harness's domain provider computes domains from *)
   c_svc : service;              (* what the harness's spec provider served (absent optional domain types = None) *)
   c_dom_fail : bool;            (* the domain provider returns errors *)
+  c_batch_fail : list N;        (* keys: multi-signature calls made for this request have no signature for this member *)
+  c_batch_err : list N;         (* keys: a multi-signature call made on this account for this request fails as a whole *)
+  c_single_fail : list N;       (* keys: the single-signature methods of this account fail during this request *)
   c_req : request;
   c_out : ores;                 (* outcome; for OOk the provenance of every returned signature *)
   c_verified : list bool;       (* i-th returned signature BLS-verifies under the i-th account's validator key against c_roots[i] *)
@@ -92,12 +106,15 @@ Definition to_ores (r : res (list psig)) : ores :=
   | Panic => OPanic
   end.
 
+(* the accounts' signers as they answer during the case's request *)
+Definition case_env (c : case) : env psig := rec_env_for (c_batch_fail c) (c_batch_err c) (c_single_fail c).
+
 (* Every case is ONE request; the harness makes it to a service fresh from New, or as a later
    request of a session on one service instance (sequentially or from several goroutines at once).
    In both situations the model's prediction is that of the request made alone (for a session
-   this is [run_session], lemma [session_cases_agree] below). *)
+   this is [run_session_env], lemma [session_cases_agree] below). *)
 Definition model_out (c : case) : ores :=
-  to_ores (run Hc psig PZero (case_provider c) rec_env (c_svc c) (c_req c)).
+  to_ores (run Hc psig PZero (case_provider c) (case_env c) (c_svc c) (c_req c)).
 
 Definition ores_eqb (x y : ores) : bool :=
   match x, y with
@@ -115,17 +132,25 @@ Definition agree (c : case) : bool := ores_eqb (model_out c) (c_out c).
      against the harness's root for the i-th message, and that root is the specification's signing
      root for the i-th message as Lib/Ssz.v computes it (domain type of the duty, fork of the
      duty's epoch); or
-   - is the zero signature (vouch's "no signature") and the i-th account is one that cannot sign. *)
-Fixpoint sigs_ok (ch : chain) (items : list (account * message)) (sigs : list psig) (ver : list bool) (roots : list N) : bool :=
+   - is the zero signature (vouch's "no signature") and the i-th account is one that cannot sign,
+     or one that the signer had no signature for in a batch call of this request ([bf]).
+   In particular EVERY non-zero signature returned -- whether it came out of the batch call or out
+   of anything done about a member that the batch call left out -- must verify against the
+   signing root of ITS OWN message. *)
+Definition cannot_sign (bf : list N) (a : account) : bool := a_fail a || mem (a_key a) bf.
+(* [bf] below is c_batch_fail ++ c_single_fail: the accounts that the signer, during this request,
+   had no signature for in a batch call or failed for when asked alone *)
+
+Fixpoint sigs_ok (bf : list N) (ch : chain) (items : list (account * message)) (sigs : list psig) (ver : list bool) (roots : list N) : bool :=
   match items, sigs with
   | [], [] => true
   | (a, m) :: items', s :: sigs' =>
       match ver, roots with
       | v :: ver', r :: roots' =>
           (match s with
-           | PZero => a_fail a
+           | PZero => cannot_sign bf a
            | _ => v && (r =? spec_signing_root Hc ch m)
-           end) && sigs_ok ch items' sigs' ver' roots'
+           end) && sigs_ok bf ch items' sigs' ver' roots'
       | _, _ => false
       end
   | _, _ => false
@@ -133,7 +158,7 @@ Fixpoint sigs_ok (ch : chain) (items : list (account * message)) (sigs : list ps
 
 Definition P_b (c : case) : bool :=
   match c_out c with
-  | OOk sigs => sigs_ok (c_chain c) (request_items (c_req c)) sigs (c_verified c) (c_roots c)
+  | OOk sigs => sigs_ok (c_batch_fail c ++ c_single_fail c) (c_chain c) (request_items (c_req c)) sigs (c_verified c) (c_roots c)
   | _ => true
   end.
 
@@ -142,11 +167,11 @@ Definition violations (cs : list case) : list N := failing_ids c_id P_b cs.
 
 (* What P_b = true says, position by position (P_b is the boolean form of the property on the
    observed output). *)
-Lemma sigs_ok_sound ch : forall items sigs ver roots,
-  sigs_ok ch items sigs ver roots = true ->
+Lemma sigs_ok_sound bf ch : forall items sigs ver roots,
+  sigs_ok bf ch items sigs ver roots = true ->
   length sigs = length items /\
   forall i a m s, nth_error items i = Some (a, m) -> nth_error sigs i = Some s ->
-    (s = PZero /\ a_fail a = true) \/
+    (s = PZero /\ cannot_sign bf a = true) \/
     (s <> PZero /\ nth_error ver i = Some true /\ nth_error roots i = Some (spec_signing_root Hc ch m)).
 Proof.
   induction items as [|[a0 m0] items IH]; intros [|s0 sigs] ver roots Hok; cbn [sigs_ok] in Hok; try discriminate.
@@ -168,21 +193,21 @@ Lemma P_b_sound c sigs :
   P_b c = true -> c_out c = OOk sigs ->
   length sigs = length (request_items (c_req c)) /\
   forall i a m s, nth_error (request_items (c_req c)) i = Some (a, m) -> nth_error sigs i = Some s ->
-    (s = PZero /\ a_fail a = true) \/
+    (s = PZero /\ cannot_sign (c_batch_fail c ++ c_single_fail c) a = true) \/
     (s <> PZero /\ nth_error (c_verified c) i = Some true /\
      nth_error (c_roots c) i = Some (spec_signing_root Hc (c_chain c) m)).
 Proof. unfold P_b. intros Hp Ho. rewrite Ho in Hp. apply sigs_ok_sound. exact Hp. Qed.
 
 (* The cases that the harness prints for the requests of one session (same service [Sv]; each with
-   the node as it answered that request) agree one by one exactly when the session model
-   [run_session] on that one service predicts the observed outcomes in order. *)
+   the node and the accounts' signers as they answered that request) agree one by one exactly when the session model
+   [run_session_env] on that one service predicts the observed outcomes in order. *)
 Lemma session_cases_agree (Sv : service) (cs : list case) :
   Forall (fun c => c_svc c = Sv) cs ->
   forallb agree cs = true ->
   Forall2 (fun r c => ores_eqb (to_ores r) (c_out c) = true)
-          (run_session Hc psig PZero rec_env Sv (map (fun c => (case_provider c, c_req c)) cs)) cs.
+          (run_session_env Hc psig PZero Sv (map (fun c => (case_provider c, case_env c, c_req c)) cs)) cs.
 Proof.
-  induction cs as [|c r IH]; intros Hsv Hag; cbn [map run_session handle fst snd].
+  induction cs as [|c r IH]; intros Hsv Hag; cbn [map run_session_env handle_env fst snd].
   - constructor.
   - inversion Hsv as [|? ? Hc0 Hr]; subst. cbn [forallb] in Hag. apply andb_true_iff in Hag as [Hc1 Hr1].
     constructor.
